@@ -256,6 +256,12 @@ macro_rules! combo {
           if buf.len() % 2880 != 0 {
             $sink.impl_failures.push(format!("fits-not-2880: {} u{} depth {} {} len {}", q, w, d, fl, buf.len()));
           }
+          {
+            // the whole file, byte for byte (header cards included), against the model's file
+            let mut h: u64 = 14695981039346656037;
+            for x in buf.iter() { h = (h ^ (*x as u64)).wrapping_mul(1099511628211); }
+            $sink.emit(&format!("fits_file {} {} {} {}", q, w, d, fl), &format!("{}:{}", buf.len(), h), nontrivial);
+          }
           match fits_structure(&buf) {
             Some((hlen, n1, n2)) => {
               let datalen = buf.len() - hlen;
